@@ -588,6 +588,13 @@ def ResolveBinaryExpressionType(
         if left.GetKind() != right.GetKind():
             Errors.ERROR_INCOMPATIBLE_TYPES.Raise(left, right)
 
+        # There is no comparison of matrices (neither a result type nor a
+        # lowering exists for it)
+        if left.IsMatrix():
+            Errors.ERROR_INVALID_BINARY_EXPRESSION_OPERATION.Raise(
+                operation, left, right
+            )
+
         # Cast may be still necessary if we compare integers with floats
         baseType = _GetCommonPrimitiveType(left, right)
 
